@@ -11,6 +11,8 @@ from .common import Check, compile_font, pmap
 
 def sig_of(msg):
     m = re.sub(r"'[^']*'", "X", msg)
+    m = re.sub(r"\([^)]*\)", "(..)", m)
+    m = re.sub(r"\[[^\]]*\]", "[..]", m)
     m = re.sub(r"-?\d+(\.\d+)?", "N", m)
     return m[:80]
 
